@@ -53,6 +53,19 @@ ResOK(e, got) ==
                           /\ ToSet(got.services) = e.services /\ Len(got.services) = Cardinality(e.services)
                           /\ ToSet(got.ifaces) = e.ifaces /\ Len(got.ifaces) = Cardinality(e.ifaces)
                           /\ ToSet(got.comps) = e.comps
+      [] e.k = "attrs" ->
+            /\ got.k = "attrs" /\ got.v.pdp_same /\ got.v.other_keys = <<>>
+            /\ got.v.rtype = e.v.rtype
+            /\ ToSet(got.v.sites) = e.v.sites /\ Len(got.v.sites) = Cardinality(e.v.sites)
+            /\ Fn(got.v.cpu) = e.v.cpu /\ Fn(got.v.ram) = e.v.ram /\ Fn(got.v.disk) = e.v.disk
+            /\ Fn(got.v.comps) = e.v.comps /\ Fn(got.v.bw) = e.v.bw
+            /\ ToSet(got.v.facilities) = e.v.facilities /\ Len(got.v.facilities) = Cardinality(e.v.facilities)
+            /\ ToSet(got.v.v4ext) = e.v.v4ext /\ ToSet(got.v.v6ext) = e.v.v6ext
+            /\ ToSet(got.v.mirror) = e.v.mirror /\ Len(got.v.mirror) = Cardinality(e.v.mirror)
+      [] e.k = "tally" ->
+            /\ got.k = "tally" /\ got.v.vm_count = e.v.vm_count /\ got.v.core_count = e.v.core_count /\ got.v.p4_count = e.v.p4_count
+            /\ Fn(got.v.components) = e.v.components /\ Fn(got.v.services) = e.v.services
+            /\ ToSet(got.v.sites) = e.v.sites /\ ToSet(got.v.facilities) = e.v.facilities
       [] e.k = "tables" ->
             /\ got.k = "tables"
             /\ [t \in DOMAIN got.svc |-> [layer |-> got.svc[t].layer, min_if |-> got.svc[t].min_if, max_if |-> got.svc[t].max_if,
@@ -90,6 +103,9 @@ Next == /\ l <= Len(Traces[tid].steps)
                             (IF exp.res.k = "handles" /\ line.res.k = "handles" /\ Len(line.res.v) = Len(exp.res.hs)
                                 /\ \A j \in 1..Len(exp.res.hs) : ToSet(line.res.v[j].fresh) = exp.res.hs[j]
                              THEN "result: the handle used for the call differs from a fresh lookup"
+                             ELSE IF exp.res.k = "attrs" /\ line.res.k = "attrs" /\ ToSet(line.res.v.mirror) # exp.res.v.mirror
+                                  THEN "authorization attributes: mirror-site attribute"
+                             ELSE IF exp.res.k = "attrs" THEN "authorization attributes"
                              ELSE IF exp.res.k = "tables" THEN "constraint table changed (live tables differ from the pinned ones)"
                              ELSE "result")
                        ELSE IF Diff(X, O) # "" THEN Diff(X, O)
